@@ -241,6 +241,15 @@ def check(ctx):
             run.add('C03.sides', pmatch.module.name, pmatch.qualname, c, ok,
                     f'{side} selection is matched against the {side} port names' if ok else
                     f'{side} selection is matched against `{arg}`', node=c)
+            # the per-side match is where configured names the component does not have are refused: it has to run
+            # whatever the port names are (also for a side without ports)
+            conds = [('' if p_ else 'not ') + ast.unparse(f) for f, p_ in ctx.flow.path_conditions(c)]
+            handler = ctx.flow.enclosing(c, (ast.Try, ast.ExceptHandler)) is not None
+            ok = not conds and not handler
+            run.add('C03.sides', pmatch.module.name, pmatch.qualname, f'{side} match unconditional', ok,
+                    f'the {side} selection is matched whatever the port names are' if ok else
+                    f'the {side} selection is only matched when `{" and ".join(conds) or "no exception intervenes"}`: '
+                    f'otherwise names configured on that side that the component does not have are accepted silently', node=c)
         run.add('C03.sides', pmatch.module.name, pmatch.qualname, 'both sides matched', set(sides) == {'provides', 'requires'},
                 'both sides are matched and merged' if set(sides) == {'provides', 'requires'} else
                 f'only {sorted(sides)} matched')
